@@ -187,6 +187,8 @@ def run(tier, seed):
         if got:
             rc2, so2, se2, _ = core.run_cli(filt_args(j["flt"]), stdin_bytes=got)
             again = so2
+            if b"Init processing failed" in se2:
+                again = None      # the output opens with a packet whose RDH0 the start-up code refuses (D9): as an INPUT it is not analysed at all
         if os.path.exists(outp):
             os.remove(outp)
         return rc, got, again, se[-400:].decode("utf8", "replace")
